@@ -133,7 +133,8 @@ def main():
     if not scratch:
         # rebuild against the clean tree so that caches are warm and nothing from a mutant lingers
         sh([os.path.join(ROOT, "setup.sh")], cwd=ROOT)
-    write_readme(sdir, results)
+    if res_path == os.path.join(sdir, "RESULTS.json"):
+        write_readme(sdir, results)
     miss = [n for n in names if not results.get(n, {}).get("caught_by_target") and not results.get(n, {}).get("superseded")]
     print("not caught by the target check:", miss)
     return 0
